@@ -15,7 +15,8 @@ from vf import gen, harness, refdec, synth, treecheck
 
 ID = "C17"
 LEVEL = "exploration"
-RULE = ("one instant per case (years 2014..2049; boundary days 1/59/60/61/365/366; first and last millisecond of a day; random), "
+RULE = ("(instants include wall-clock times inside spring-forward gaps of six time zones and the year 2000; a share of the platform-position seconds carry 7-9 decimals) "
+        "one instant per case (years 2014..2049; boundary days 1/59/60/61/365/366; first and last millisecond of a day; random), "
         "written simultaneously into every line of an image (ms stamp and, level 1.1, us-of-day stamp; a second image carries four lines straddling the following midnight / year end), every attitude point, the "
         "platform-position first point (date text + decimal seconds), the scene-centre time and the volume creation time; "
         "every time leaf of the tree is compared with the instant decoded from the bytes and the leaves given the same "
